@@ -5,7 +5,7 @@ from props import netprops
 
 LEVEL = "proof"
 RULE = ("matrix over valid SPEC-generated Valve servers: all 9 toggle pairs x section outcome {valid, silent, malformed, "
-        "challenge-then-silent, compressed split that does not decompress (a failure of a kind other than the packet kinds)} for players and for rules x app-id relation (main / dedicated / other id / no expectation; "
+        "challenge-then-silent, compressed split that does not decompress (a failure of a kind other than the packet kinds), a well-formed reply announcing more entries than it holds} for players and for rules x app-id relation (main / dedicated / other id / no expectation; "
         "from the base case's engine and server id) x check on/off. The oracle derives the expected response from the "
         "fault-free one: skipped or failed-Try sections absent, rest intact; failed Enforce = that failure; BadGame exactly "
         "on a foreign id with the check on; request kinds seen on the wire must match. The same decision through the generic "
@@ -14,7 +14,7 @@ RULE = ("matrix over valid SPEC-generated Valve servers: all 9 toggle pairs x se
 ASSUMPTIONS = ["timeouts are scripted deliveries (silence)"]
 TRUSTED = ["hand-written Lean model of maybe_gather!/get_response, checked against the code on every run"]
 
-OUTCOMES = ["valid", "silent", "malformed", "chalsilent", "undecompressable"]
+OUTCOMES = ["valid", "silent", "malformed", "chalsilent", "undecompressable", "shortcount"]
 # a Source split reply of one fragment, marked compressed (bit 31 of the id), whose stream no bzip2 decoder accepts:
 # the section fails with the decompression error kind, not with a packet error kind
 UNDECOMPRESSABLE = (bytes.fromhex("feffffff") + (0x80000007).to_bytes(4, "little") + bytes([1, 0]) + (1248).to_bytes(2, "little")
@@ -41,7 +41,14 @@ def build(valid, tp, tr, op, orr, check, new_id):
             newds += groups[k]
         elif o == "silent":
             newds.append(None)
-        elif o == "malformed" or (o == "undecompressable" and not compressible(c)):
+        elif o == "shortcount" and groups[k] and groups[k][-1] is not None and groups[k][-1][:5] == b"\xff\xff\xff\xffD":
+            # a well-formed PLAYERS reply that announces more entries than it holds (it ends exactly where an entry would
+            # begin): not a valid section — the count is part of the reply.  (A rules reply with too large a count is read
+            # leniently by the code — empty strings at the end of the packet — and is not used here.)
+            d = groups[k][-1]
+            d2 = d[:5] + bytes([min(255, d[5] + 1 + (len(newds) % 3))]) + d[6:] if d[5] < 255 else b"\xff\xff"
+            newds += groups[k][:-1] + [d2]
+        elif o in ("malformed", "shortcount") or (o == "undecompressable" and not compressible(c)):
             newds.append(b"\xff\xff")
         elif o == "undecompressable":
             newds.append(UNDECOMPRESSABLE)
